@@ -906,6 +906,7 @@ def run(ctx):
         "the physics inside a task is abstracted: exit direction of every packet, re-emission decision and target subgrid of a continuous-source packet are universally quantified inputs of the labels",
         "capacities of the buffer pool, task table and queues are not exhausted (free ids are label parameters; no_stuck assumes two free buffers and nblocks+1 free task slots)",
         "sequentially consistent atomics; the non-atomic read pair (is_empty, num_photon_done) of the termination test is modelled as one read (the hook order makes every logged PZ consistent, replay checks it)",
+        "packet identities are logged (CMAC_VERIF_PACKET_IDS=1) for traced runs with at most 3000 packets; the id member of PhotonPacket exists only under the guard CMACIONIZE_VERIF",
         "--task-plot is off (otherwise tasks are deliberately kept until the end of the iteration)",
         "the photon loop of TaskBasedRadiationHydrodynamicsSimulation.cpp is covered at the protocol level (no continuous source => no task can be obtained after the flag was cleared, theorem after_termination_only_packet_free_tasks); its traces are not replayed in the quick tier",
     ]
@@ -998,6 +999,6 @@ def replay(ctx, path):
 
 MANIFEST = dict(
     category="proof",
-    text="Lean theorems over EVERY execution of the photon-packet protocol of a task-based photoionization iteration (arbitrary interleaving of the committed task actions, any number of threads, any subgrid layout / periodicity / copy wiring, discrete and continuous sources, re-emission on or off, any packet number, physics outcome of every task universally quantified): exact split of the requested number over sources and subgrid copies (split_total, batches_total); conservation N = done + sources + source tasks + buffers in use + continuous buffers (conservation); every buffer in use has exactly one owner, a task or one active-buffer entry, with 1..200 resp. 1..199 packets (ownership); no packet terminated twice, each exactly once when done = N (exactly_once, ghost packet identifiers); run flag cleared => done = N and no buffer, active buffer, source or continuous-buffer content left (termination_sound); the cached largest active buffer of a subgrid is always a real, largest one (premature_safe); the continuous-source counter is exact and buffers are flushed exactly when it is zero (continuous_bookkeeping); done < N => some label is enabled while capacities are not exhausted (no_stuck); on top, the worker loop of the threads (lstep, loop condition after fix f78e960): a dequeued task always has a live holder and when all threads have left the loop NO task, queue entry, lock or buffer is left (nothing_left_behind). Tied to the code by replaying every record of the hook-H2 trace of real multi-thread CMacIonize --task-based runs (also under seeded scheduling jitter) through the same Lean step function, by the same statements evaluated directly on the trace, and by a differential test of DistributedPhotonSource.",
+    text="Lean theorems over EVERY execution of the photon-packet protocol of a task-based photoionization iteration (arbitrary interleaving of the committed task actions, any number of threads, any subgrid layout / periodicity / copy wiring, discrete and continuous sources, re-emission on or off, any packet number, physics outcome of every task universally quantified): exact split of the requested number over sources and subgrid copies (split_total, batches_total); conservation N = done + sources + source tasks + buffers in use + continuous buffers (conservation); every buffer in use has exactly one owner, a task or one active-buffer entry, with 1..200 resp. 1..199 packets (ownership); no packet terminated twice, each exactly once when done = N (exactly_once, ghost packet identifiers); run flag cleared => done = N and no buffer, active buffer, source or continuous-buffer content left (termination_sound); the cached largest active buffer of a subgrid is always a real, largest one (premature_safe); the continuous-source counter is exact and buffers are flushed exactly when it is zero (continuous_bookkeeping); done < N => some label is enabled while capacities are not exhausted (no_stuck); on top, the worker loop of the threads (lstep, loop condition after fix f78e960): a dequeued task always has a live holder and when all threads have left the loop NO task, queue entry, lock or buffer is left (nothing_left_behind). Tied to the code by replaying every record of the hook-H2 trace of real multi-thread CMacIonize --task-based runs (also under seeded scheduling jitter) through the same Lean step function, by the same statements evaluated directly on the trace, by PACKET IDENTITIES (hook build: every launched packet carries a unique id that is copied with the packet and kept by a re-emission; for runs with <= 3000 packets the ids entering / leaving every traversal and re-emission task are logged, fed through the model's ghost ids and checked directly: launched once, terminated exactly once, never in two buffers, every buffer delivers what was put into it, in order), and by a differential test of DistributedPhotonSource.",
     note="Trusted: Lean kernel + 3 axioms; hand model of the seven task contexts, MemorySpace::add_photons, the photon loop and DistributedPhotonSource; task-level atomicity of commits (lock discipline is C08) and sequentially consistent atomics; the trace hook serialises commit bookkeeping (not the physics) through one mutex. NOT proved: termination (with re-emission it only holds with probability 1; no_stuck is the provable part); capacities of buffer pool / task table / queues are assumed sufficient. A run that does not finish within 60-90 s or dies is reported as a violation. The RHD photon loop is covered by the protocol theorems only (discrete sources: no task exists after termination).",
     technique="Lean 4 proof (inductive invariant + weight function generic in a packet weight: length gives conservation, indicator gives exactly-once; thread-loop invariant on top) + trace refinement check against the real hooked binary under scheduling jitter + differential harness")
